@@ -77,6 +77,17 @@ CHECKS = {
         note="bounded pools (spec/MC_Scopes.tla, MC_Lambda.tla); abandoned generators rely on CPython refcounting",
         ref="DESIGN.md section 6 C07",
     ),
+    "C08": dict(
+        engine="LiquidInherit",
+        technique="TLA+ model of block-stack resolution (LiquidSem) checked by TLC against an independent reference fold (LiquidInherit!Page) "
+                  "over all chains; every chain replayed through DictLoader/CachingDictLoader, sync and async",
+        text="every chain of <=2 (thorough 3) templates, each independently omitting/defining/super-ing/requiring two block names with optional "
+             "nesting, plus duplicate blocks, two extends, mismatched endblock, circular and dangling chains, chains entered through include "
+             "and render, and a root parent including a partial that extends another chain: TLC proves stacks = fold and rejection of "
+             "malformed chains on the model and exports each case; the library must give the same page or error class",
+        note="two block names; block bodies are text/global output/block.super; text before extends is outside the space (docs silent)",
+        ref="DESIGN.md section 6 C08",
+    ),
     "C10": dict(
         engine="LiquidSem",
         technique="TLC enumeration of every subset of namespace layers binding one name (MC_Layers) replayed into the library; deep "
